@@ -32,7 +32,8 @@ func init() {
 }
 
 type c13consumer struct {
-	id      int // message index (harness), not the wire id
+	must    bool // sent inside the pre-login handler or inside such a consumer's callback: completion has to wait for it
+	id      int  // message index (harness), not the wire id
 	calls   int
 	bodies  [][]byte
 	onReply func()
@@ -53,6 +54,10 @@ func (c *c13consumer) OnMessageResponse(body []byte) error {
 }
 
 func runC13(r *Run) {
+	if r.W.Pick(4) == 3 {
+		runC13ForgeRelay(r)
+		return
+	}
 	prots := []proto.Protocol{version.Minecraft_1_20_2.Protocol, version.Minecraft_1_20.Protocol, version.Minecraft_1_15.Protocol, version.Minecraft_1_19_4.Protocol, version.Minecraft_1_21.Protocol, version.Minecraft_1_13.Protocol}
 	prot := prots[r.W.Pick(len(prots))]
 	w := newClassic(r, []string{"lobby"}, nil)
@@ -66,21 +71,21 @@ func runC13(r *Run) {
 	completions := 0
 	syncAnsweredAtCompletion := true
 	seq := 0
-	sendMsg := func(parent string, followUps int) *c13consumer {
-		c := &c13consumer{id: len(consumers)}
+	sendMsg := func(parent string, followUps int, must bool) *c13consumer {
+		c := &c13consumer{id: len(consumers), must: must}
 		consumers = append(consumers, c)
 		contentOf[c.id] = c.id
 		if followUps > 0 && r.W.Pick(3) == 0 {
 			c.onReply = func() {
 				r.Op("followup")
-				sendMsgHook(followUps - 1)
+				sendMsgHook(followUps-1, must)
 			}
 		}
 		r.Op(parent)
 		_ = lpc.SendLoginPluginMessage(chID, []byte{byte('Q'), byte(c.id)}, c)
 		return c
 	}
-	sendMsgHook = func(f int) { sendMsg("followup-send", f) }
+	sendMsgHook = func(f int, must bool) { sendMsg("followup-send", f, must) }
 	asyncDelays := make([]int, nAsync)
 	for i := range asyncDelays {
 		asyncDelays[i] = r.W.Pick(60)
@@ -93,7 +98,7 @@ func runC13(r *Run) {
 		}
 		lpc = l
 		for i := 0; i < nSync; i++ {
-			sendMsg("sync-send", 2)
+			sendMsg("sync-send", 2, true)
 		}
 		if nAsync > 0 {
 			simrt.Go(func() {
@@ -104,7 +109,7 @@ func runC13(r *Run) {
 					if !lpc.Active() {
 						return
 					}
-					sendMsg("async-send", 1)
+					sendMsg("async-send", 1, false)
 				}
 			})
 		}
@@ -112,8 +117,11 @@ func runC13(r *Run) {
 	event.Subscribe(w.ev, 0, func(e *proxy.GameProfileRequestEvent) {
 		completions++
 		seq++
-		for i := 0; i < nSync && i < len(consumers); i++ {
-			if consumers[i].calls == 0 {
+		for _, c := range consumers {
+			// every message sent inside the pre-login handler, and every follow-up sent
+			// from inside such a message's consumer, is outstanding before the completion
+			// can be decided
+			if c.must && c.calls == 0 {
 				syncAnsweredAtCompletion = false
 			}
 		}
@@ -252,4 +260,143 @@ func runC13(r *Run) {
 	r.Res.Sample = map[string]any{"protocol": int(prot), "sync": nSync, "async": nAsync, "consumers": len(consumers), "completions": completions, "logged_in": cl.LoginSuccess != nil}
 }
 
-var sendMsgHook func(int)
+var sendMsgHook func(int, bool)
+
+// runC13ForgeRelay: a Modern Forge client before 1.20.2 stays in the login state while the
+// backend's fml:loginwrapper login plugin messages are relayed to it; each must be answered
+// to the backend exactly once, with the client's own reply (success flag and body) for
+// that message.
+func runC13ForgeRelay(r *Run) {
+	r.Res.Variant = "forge-relay"
+	prots := []proto.Protocol{version.Minecraft_1_13.Protocol, version.Minecraft_1_15.Protocol, version.Minecraft_1_19_4.Protocol, version.Minecraft_1_20.Protocol, version.Minecraft_1_18_2.Protocol}
+	prot := prots[r.W.Pick(len(prots))]
+	w := newClassic(r, []string{"lobby"}, nil)
+	proxyEvents(w)
+	marker := "\x00FML2\x00"
+	if prot.GreaterEqual(version.Minecraft_1_18) {
+		marker = "\x00FML3\x00"
+	}
+	n := 1 + r.W.Pick(5)
+	type plan struct {
+		ok   bool
+		body []byte
+	}
+	plans := make([]plan, n)
+	reqData := make([][]byte, n)
+	beID := make([]int, n)
+	for i := range plans {
+		switch r.W.Pick(5) {
+		case 0:
+			plans[i] = plan{ok: false}
+		case 1:
+			plans[i] = plan{ok: true, body: []byte{}} // success without payload bytes
+		default:
+			plans[i] = plan{ok: true, body: append([]byte{byte(i)}, genBytes(r, 40)...)}
+		}
+		reqData[i] = append([]byte{'F', byte(i)}, genBytes(r, 30)...)
+		beID[i] = []int{0, 1, 77, 1000}[r.W.Pick(4)] + i*3
+	}
+	type beResp struct {
+		id   int
+		ok   bool
+		data []byte
+	}
+	var got []beResp
+	beErr := ""
+	w.backends["lobby"].Beh.OnLogin = func(bc *backendConn) {
+		for i := 0; i < n; i++ {
+			r.Op("backend-login-plugin-message")
+			if err := bc.send(&packet.LoginPluginMessage{ID: beID[i], Channel: "fml:loginwrapper", Data: reqData[i]}); err != nil {
+				return
+			}
+			if r.W.Pick(2) == 0 {
+				continue // pipelined: read the answers later
+			}
+			for len(got) <= i {
+				rec, err := bc.w.read()
+				if err != nil {
+					beErr = err.Error()
+					return
+				}
+				if p, ok := rec.Packet.(*packet.LoginPluginResponse); ok {
+					got = append(got, beResp{p.ID, p.Success, append([]byte{}, p.Data...)})
+				}
+			}
+		}
+		for len(got) < n {
+			rec, err := bc.w.read()
+			if err != nil {
+				beErr = err.Error()
+				return
+			}
+			if p, ok := rec.Packet.(*packet.LoginPluginResponse); ok {
+				got = append(got, beResp{p.ID, p.Success, append([]byte{}, p.Data...)})
+			}
+		}
+	}
+	relayed := 0
+	cl := w.addClient("Forger", prot, func(c *clientModel) {
+		c.Host = "play.example.com" + marker
+		c.OnLoginPlugin = func(m *packet.LoginPluginMessage) *packet.LoginPluginResponse {
+			relayed++
+			if m.Channel != "fml:loginwrapper" || len(m.Data) < 2 || m.Data[0] != 'F' {
+				return &packet.LoginPluginResponse{ID: m.ID, Success: false}
+			}
+			pl := plans[int(m.Data[1])%n]
+			r.Op("client-answer")
+			return &packet.LoginPluginResponse{ID: m.ID, Success: pl.ok, Data: pl.body}
+		}
+		if c.Login() {
+			c.StartReader()
+			simrt.Sleep(50*time.Millisecond, "c13.stay")
+		}
+		c.Close()
+	})
+	why := w.s.RunUntil(30*time.Second, func() bool { return w.allClientsDone() })
+	if why == "steps" {
+		r.Inconclusive("step budget exhausted")
+		return
+	}
+	if r.CheckDeadlock() {
+		return
+	}
+	desc := func() string {
+		var ps, gs []string
+		for i, p := range plans {
+			ps = append(ps, fmt.Sprintf("#%d(id %d): ok=%v %d bytes", i, beID[i], p.ok, len(p.body)))
+		}
+		for _, g := range got {
+			gs = append(gs, fmt.Sprintf("id %d ok=%v %d bytes", g.id, g.ok, len(g.data)))
+		}
+		return fmt.Sprintf("protocol=%d relayed-to-client=%d client-replies=%v backend-received=%v backend-read-error=%q client=%v kick=%q", prot, relayed, ps, gs, beErr, clientPhases(w), cl.KickText())
+	}
+	if len(cl.JoinGames) == 0 {
+		r.Fail("forge-relay-join-failed", "join", "a Modern Forge client whose replies all arrive did not get through the relayed login: %s", desc())
+		return
+	}
+	count := map[int]int{}
+	for _, g := range got {
+		count[g.id]++
+	}
+	for i, p := range plans {
+		if count[beID[i]] != 1 {
+			r.Fail("relayed-message-not-answered-once", "count", "backend message #%d (id %d) was answered %d times: %s", i, beID[i], count[beID[i]], desc())
+			return
+		}
+		for _, g := range got {
+			if g.id != beID[i] {
+				continue
+			}
+			wantBody := p.body
+			if !p.ok {
+				wantBody = nil
+			}
+			if g.ok != p.ok || !bytes.Equal(g.data, wantBody) {
+				r.Fail("relayed-reply-differs", fmt.Sprintf("ok=%v empty=%v", p.ok, len(p.body) == 0), "backend message #%d (id %d): the client replied success=%v with %d bytes, the backend was told success=%v with %d bytes: %s", i, beID[i], p.ok, len(p.body), g.ok, len(g.data), desc())
+				return
+			}
+		}
+	}
+	r.State(fmt.Sprintf("forge p%d n%d", prot, n))
+	r.Res.Sample = map[string]any{"variant": "forge-relay", "protocol": int(prot), "messages": n, "relayed": relayed}
+}
